@@ -87,6 +87,9 @@ var c05EscapeData = univ.IfaceMap("m", univ.IfaceMap("/", univ.Int(1), "~", univ
 var c05EscapeCases = []struct{ expr, want string }{
 	{`"/m/~01" == 1`, "F"}, {`"/m/~01" != 1`, "T"}, {`"/m/~01" is empty`, "T"}, {`"/m/~01" is not empty`, "F"}, {`1 in "/m/~01"`, "F"}, {`"/m/~01" matches "1"`, "F"}, {`any "/m/~01" as v { v == 1 }`, "F"}, {`all "/m/~01" as v { v == 9 }`, "T"},
 	{`"/m/~1" == 1`, "T"}, {`"/m/~0" == 2`, "T"}, {`"/m/a~1b" == 3`, "T"}, {`"/m/a~01b" == 3`, "F"}, {`"/m/~00" == 2`, "F"}, {`"/~01" == 5`, "E"}, {`"/~1" == 5`, "T"}, {`m["~1"] == 1`, "F"}, {`m["/"] == 1`, "T"},
+	// absent keys whose TEXT looks like a piece of a lookup error message
+	{"m[`warning: struct field with name Foo is deprecated`] == 1", "F"}, {"m[`: struct field with name `] != 1", "T"}, {"m[`couldn't find key`] is empty", "T"}, {"m[`index 5 is out of range`] == 1", "F"},
+	{"m[`key not found`] != 1", "T"}, {"all m[`at part 1: couldn't find key: zz`] as v { v == 1 }", "T"}, {"m[`invalid`] is not empty", "F"}, {"m[`%!v(MISSING)`] == 1", "F"}, {"m[`%s`] != 1", "T"},
 }
 
 func c05Escapes(c *mon.Ctx, idx int) {
@@ -94,6 +97,9 @@ func c05Escapes(c *mon.Ctx, idx int) {
 	for _, withUnknown := range []bool{false, true} {
 		var opts []bexpr.Option
 		want := cs.want
+		if withUnknown && (strings.HasPrefix(cs.expr, "m[`") || strings.HasPrefix(cs.expr, "all m[`")) {
+			continue // the error-text look-alikes are checked without an unknown value only
+		}
 		if withUnknown {
 			opts = append(opts, bexpr.WithUnknownValue(1))
 			// the unknown value 1 replaces only what is absent
